@@ -545,6 +545,23 @@ func callSSA(i *interpreter, caller *frame, callpos token.Pos, fn *ssa.Function,
 	}
 	i.depth++
 	if i.depth > i.eng.MaxDepth {
+		// the harness inputs are small and bounded: when the SAME function is nested dozens of
+		// times on one goroutine's stack the recursion does not follow the input - natively it
+		// ends in "fatal error: stack overflow", which no recover() catches and which kills the
+		// process. Reported as a crash (replayed natively like every other counterexample).
+		cnt := map[*ssa.Function]int{}
+		n := 0
+		var top *ssa.Function
+		for f := caller; f != nil; f = f.caller {
+			n++
+			cnt[f.fn]++
+			if top == nil || cnt[f.fn] > cnt[top] {
+				top = f.fn
+			}
+		}
+		if top != nil && cnt[top] >= 40 {
+			ex.abort("panic", fmt.Sprintf("fatal error: stack overflow (unbounded recursion: %s is nested %d times in a call stack of %d frames)", top.String(), cnt[top], n))
+		}
 		ex.abort("bound", "call depth bound exceeded (possible unbounded recursion) in "+fn.String())
 	}
 	defer func() { i.depth-- }()
